@@ -187,9 +187,13 @@ def describe(e):
     maj = max(outs, key=lambda o: len(o["who"]))
     odd = sorted({BE[w["b"]] for o in outs if o is not maj for w in o["who"]})
     panics = sorted({o["panic"][:80] for o in outs if o["panic"]})
-    key = "%s n=%d na=%d rs=%d as=%d" % (e["op"], e["n"], e["na"], e["rs"], len(e["ins"]["a"]))
+    agree = e.get("chk") == "agree"
+    key = "%s n=%d na=%d rs=%d as=%d" % (e["op"], e["n"], e["na"], e["rs"], len(e["ins"].get("a", [])))
+    if agree:
+        p_ = e["p"]
+        key += " agree rb=%s ab=%s k=%s" % (p_.get("rb"), p_.get("ab"), p_.get("k", p_.get("off")))
     op = e["op"].replace("big_", "")
-    if op.startswith(("normalize", "lsh", "rsh")):
+    if op.startswith(("normalize", "lsh", "rsh")) and not agree:
         p = e["p"]
         rb, ab, k = p["rb"], p["ab"], p["k"]
         src = e["ins"]["r"] if op in ("normalize_assign", "lsh_assign", "rsh_assign") else e["ins"]["a"]
@@ -274,6 +278,7 @@ CORPORA = {
     "c08": ("Hal/Gen_C08", "Hal/Gen_C08_quick", "Hal/Gen_C08_thorough", 1200, 8),
     "c07": ("Hal/Gen_C07", "Hal/Gen_C07_quick", "Hal/Gen_C07_thorough", 0, 8),
     "mag": ("Hal/Gen_Mag", "Hal/Gen_Mag_quick", "Hal/Gen_Mag_thorough", 0, 4),
+    "wide": ("Hal/Gen_Wide", "Hal/Gen_Wide_quick", "Hal/Gen_Wide_thorough", 6000, 8),
 }
 
 
